@@ -2,7 +2,7 @@
    Same model as C01.  Safety clauses: theorems below.  "Eventually complete" is decided as progress
    under the canonical fair schedule (completion rounds in virtual time, on the code and on the model). *)
 From Coq Require Import List ZArith Bool.
-From S2S Require Import Routing.Model Routing.Basic.
+From S2S Require Import Routing.Model Routing.Basic Routing.Inv Routing.Mono.
 Import ListNotations.
 Open Scope Z_scope.
 
@@ -26,3 +26,10 @@ Print Assumptions C03_ack_monotone_bounded.
 Theorem C03_step_refines_actions : forall fix1 x e, step fix1 x e = run_acts fix1 x (step_acts fix1 x e).
 Proof. exact step_is_run_acts. Qed.
 Print Assumptions C03_step_refines_actions.
+
+(* Monotone and bounded, end to end: for every number of sources and targets and EVERY fault-free sequence of actions with
+   well-behaved sources, every acknowledgement a receiver sends to its source is at least the one it sent before and at
+   most the source's last high watermark (and it is what the receiver records as last sent). *)
+Theorem C03_acks_monotone_bounded_all_runs : forall ns nt l, wf_run (init ns nt) l -> all_acks_ok (init ns nt) l.
+Proof. intros ns nt l. apply acks_monotone_bounded; [apply inv_init|apply ls_init]. Qed.
+Print Assumptions C03_acks_monotone_bounded_all_runs.
